@@ -482,12 +482,12 @@ func (p *Process) onProcessEnd(state string) {
 	if p.readyProber != nil {
 		p.readyCancelFn()
 	}
+	p.setState(state)
+	p.updateProcState()
 	// release processes waiting for this one to print its ready log line or to start:
 	// it has ended and will not do either anymore
 	p.readyLogCancelFn(fmt.Errorf("process %s ended", p.getName()))
 	p.runCancelFn()
-	p.setState(state)
-	p.updateProcState()
 
 	p.Lock()
 	p.done = true
